@@ -53,12 +53,13 @@ class Job:
             done = set()
             for tr in sorted(P.focus):
                 mod = self.reg.get(tr)
-                if P.kind == "union" and tr in ("PartialEq", "Hash", "Clone"):
+                if P.kind == "union" and tr in ("PartialEq", "Hash", "Clone", "Debug"):
                     mod = self.reg["__union__"]
                 if mod is None or mod in done:
                     continue
                 done.add(mod)
                 u = emit.Unit(P.tags.get("prop", self.prop), tr)
+                u.mod = mod
                 mod.kani(P, u, u.prop)
                 us.append(u)
             self.units[pid] = us
@@ -130,9 +131,12 @@ pub fn replay<Z9: crate::src::Src>(s: &mut Z9, out: &mut Vec<(String, String, St
         items, edits, drops, obls = [], {}, set(), {}
         done = set()
         for u in us:
-            mod = self.reg[u.trait]
+            mod = getattr(u, "mod", None) or self.reg[u.trait]
             if not hasattr(mod, "verus"):
                 continue
+            if mod in done:
+                continue
+            done.add(mod)
             mod.verus(P, impls, u, u.prop)
             if u.skip_verus:
                 log.append("verus side skipped for %s: %s" % (u.trait, u.skip_verus))
@@ -147,7 +151,7 @@ pub fn replay<Z9: crate::src::Src>(s: &mut Z9, out: &mut Vec<(String, String, St
         focus_traits = {u.trait for u in us if not u.skip_verus}
         # traits handled by one emitter for two names (Ord+PartialOrd, Deref+DerefMut)
         for u in us:
-            focus_traits |= set(getattr(self.reg[u.trait], "COVERS", []))
+            focus_traits |= set(getattr(getattr(u, "mod", None) or self.reg[u.trait], "COVERS", []))
         body = []
         body.append(P.tags.get("verus_pre_items", ""))
         bcast_at = len(body)
@@ -162,7 +166,7 @@ pub fn replay<Z9: crate::src::Src>(s: &mut Z9, out: &mut Vec<(String, String, St
             if tr == "inherent" and ("Default" not in focus_traits or not any(mt.name == "new" for mt in im.methods)):
                 continue      # only the generated `new()` is under contract; a user's own inherent items are not part of the expansion
             rendered = emit.render_impl(im, edits, drops, log)
-            modr = self.reg.get(tr)
+            modr = next((getattr(u, "mod", None) for u in us if u.trait == tr and getattr(u, "mod", None) is not None), None) or self.reg.get(tr)
             if modr is not None and hasattr(modr, "post_render") and tr in focus_traits:
                 rendered, extra = modr.post_render(P, rendered, log)
                 if extra:
